@@ -259,9 +259,24 @@ def coq_run(ctx, label, fn, case_terms, metas, shard):
     return len(case_terms) - len(bad)
 
 
+def replay(ctx, data):
+    """./check C13 --replay file: re-run the recorded history against the statement."""
+    r = data.get("replay", {})
+    hist = [tuple(o) for o in r.get("history", [])]
+    k = r.get("nodes", K_SMALL)
+    if not hist:
+        print("replay file holds no history (broken proof or correspondence): running the full check")
+        return run(ctx)
+    st = check_history(ctx, k, hist, want_trace=True)
+    print("history:", hist)
+    print("implementation states (items, identity class, kids) per step:" if st else "the statement fails on this history")
+    for s in st or []:
+        print("  ", s)
+
+
 def run(ctx):
-    t0 = time.time()
     built = ctx.build(extra_targets=["theories/Model/NsRun.v"])
+    t0 = time.time()           # the enumeration budget starts after the proof build
     thorough = ctx.tier == "thorough"
     depth = 5 if thorough else 4
     ctx.extra["rule"] = (f"(i) every history of length 1..{depth} over attach / declare / re-declare / undeclare on {K_SMALL} nodes, "
@@ -269,7 +284,7 @@ def run(ctx):
                          "attach restricted to detached roots not above the parent; (ii) random histories of length 60 on 12-15 nodes, "
                          "3 prefixes, 3 URIs, random insertion indices; non-trivial = distinct history whose last step changes some binding or some sharing class")
     # ---- (i) exhaustive
-    hists = enum_histories(depth)
+    hists = sorted(enum_histories(depth), key=len)     # shortest first: the first failure found is a shortest one
     ctx.count("exhaustive_histories", len(hists))
     terms, metas = [], []
     budget = 480 if thorough else 45
